@@ -555,6 +555,30 @@ def r7(F, R, w):
         R.ok("C12-R7", w.path + ":next-draw", site, "every path from one draw to the next reads the mailbox")
 
 
+
+def r10(F, R):
+    R.rule("C12-R10", "a Pause / Resume is delivered to every chain, whatever its state: ChainProcess::pause and ::resume send on every path to Ok(()) - no early-out for "
+                      "a chain that has not started or looks finished (a chain that is still waiting for a pool thread relies on the queued Pause alone: without it, it "
+                      "starts and records its whole trace while the sampler is paused)")
+    n = 0
+    for b in sorted(F.bodies.values(), key=lambda x: x.path):
+        if b.kind == "closure" or b.fn_name not in ("pause", "resume") or not path_ends(b.parent.get("self_adt") or b.r.get("impl_self_adt") or "", "sampler::ChainProcess"):
+            continue
+        sends = [bb for bb, t in b.calls() if t["callee"].get("name") == "send"]
+        oks = [bi for bi, blk in enumerate(b.blocks) if not blk["cleanup"] and any(
+            st["k"] == "assign" and st["pl"]["l"] == 0 and not st["pl"]["p"] and st["rv"]["k"] == "agg" and st["rv"].get("variant") == "Ok" for st in blk["stmts"])]
+        n += 1
+        key = b.path + ":send-on-every-path"
+        site = "%s @%s" % (b.path, b.loc())
+        if not sends:
+            R.bad("C12-R10", key, site, "no send in %s" % b.fn_name)
+        elif any(o in b.reach_from(0, avoid=sends) for o in oks):
+            R.bad("C12-R10", key, site, "%s() can return Ok(()) without sending: the command is withheld from chains in some state" % b.fn_name)
+        else:
+            R.ok("C12-R10", key, site, "send on every path to Ok (%d Ok site(s))" % len(oks))
+    if n == 0:
+        R.ok("C12-R10", "no-helper", "sampler", "no ChainProcess::pause / ::resume helper: the sends are the controller's own and decided by R4 / R9")
+
 def run(F, R, config=None):
     if "parallel" not in C10.features(F):
         R.not_evaluated.append("C12: feature `parallel` off in this configuration")
@@ -573,10 +597,13 @@ def run(F, R, config=None):
     r6(F, R)
     r8(F, R, w, mb)
     r9(F, R)
+    r10(F, R)
+    from . import c11
+    c11.r13(F, R, rid="C12-R11")
     R.assume("std::sync::mpsc::Receiver::recv blocks until a message arrives or all senders are gone; try_recv never blocks")
     R.assume("commands reach a chain only through its own mailbox channel (C10-R3 capture inventory)")
 
 
-FEATURE_RULES = {"C12-R1": "parallel", "C12-R2": "parallel", "C12-R3": "parallel", "C12-R4": "parallel", "C12-R5": "parallel", "C12-R6": "parallel", "C12-R7": "parallel", "C12-R8": "parallel", "C12-R9": "parallel"}
+FEATURE_RULES = {"C12-R1": "parallel", "C12-R2": "parallel", "C12-R3": "parallel", "C12-R4": "parallel", "C12-R5": "parallel", "C12-R6": "parallel", "C12-R7": "parallel", "C12-R8": "parallel", "C12-R9": "parallel", "C12-R10": "parallel", "C12-R11": "parallel"}
 CONFIGS = ["all", "default"]
 SELFTEST = True
